@@ -130,8 +130,18 @@ Definition check_C14 (c : c14_case) : bool :=
           let d0 := delta exact (reg_coords (reg m) ++ op_coords o) in
           let d := delta exact (reg_coords (reg m) ++ op_coords o ++
                                 res_coords (transform_tol (align_tol + d0) true o m)) in
-          check_res exact (transform_tol (align_tol - d) inplace o m)
-                          (transform_tol (align_tol + d) inplace o m) obs
+          let hi := transform_tol (align_tol + d) inplace o m in
+          (* scale regime: when the moved corners no longer resolve the cells (cell <= 1e6 roundings of
+             the largest coordinate) a refusal by the implementation is admissible *)
+          let unresolved := negb exact &&
+                            match hi with
+                            | OK m' => existsb (fun c => Qle_bool c (d * 1000000)) (cell m')
+                            | Err _ => false
+                            end in
+          match obs with
+          | None => if unresolved then true else check_res exact (transform_tol (align_tol - d) inplace o m) hi obs
+          | Some _ => check_res exact (transform_tol (align_tol - d) inplace o m) hi obs
+          end
       | Err _ => false
       end
   | CSelPlane exact s a v obs =>
